@@ -3,10 +3,12 @@
 pub mod common;
 pub mod engine_adp;
 pub mod engine_obs;
+pub mod engine_thr;
 pub mod engine_vec;
 pub mod runners_adp;
 pub mod runners_misc;
 pub mod runners_obs;
+pub mod runners_thr;
 pub mod runners_vec;
 pub mod vops;
 
@@ -22,6 +24,8 @@ pub struct Params {
     /// scale factor for random case counts (sanitizer / Miri runs use < 1)
     pub scale: f64,
     pub known: common::Known,
+    /// which parts of a multi-part check to run: all | seq | threads
+    pub part: String,
 }
 
 impl Params {
